@@ -328,6 +328,9 @@ func workC18(req *Request, set []byte) {
 			pkg, path := string(md.ParentFile().Package()), strings.SplitN(joinSplit(md), "/", 2)[1]
 			o.Viol = checkRoot(ix, pkg, path, r)
 		})
+		if req.dead("msg|" + full) {
+			continue // building this schema kills the process: nothing further to try on it
+		}
 		if req.skip("msg|" + full) {
 			// retry after a crash in a later step: rebuild quietly
 			func() {
